@@ -5,13 +5,14 @@ scratch worktree /tmp/mt/repo: demo passes without the change, fails with it, th
 tests still pass with it; runs ./check <Cnn> against it through tools/mt.sh; stores the result
 under /verif/seeded/<Cnn>-<slug>/."""
 import json, os, re, shutil, subprocess, sys
+MT = os.environ.get("MT_ROOT", "/tmp/mt")
 if not os.environ.get("MT_LOCKED"):
     os.environ["MT_LOCKED"] = "1"
-    os.execvp("flock", ["flock", "/tmp/mt.lock", sys.executable] + sys.argv)
+    os.execvp("flock", ["flock", MT + ".lock", sys.executable] + sys.argv)
 sid, crate, pid, slug = sys.argv[1:5]
 extra = sys.argv[5:]
 out = "/tmp/seed/%s.out" % sid
-wt = "/tmp/mt/repo"
+wt = MT + "/repo"
 def sh(cmd, cwd=None):
     p = subprocess.run(cmd, shell=True, cwd=cwd, stdout=subprocess.PIPE, stderr=subprocess.STDOUT, text=True)
     return p.returncode, p.stdout
